@@ -15,7 +15,8 @@ Shape == [cmd : Cmds,
           o : BOOLEAN,                                  \* --output <file>
           E : {"absent", "0", "7"},                     \* --any-errors-exit-code
           stats : {"none", "both", "output-only", "format-only"},      \* --output-stats <file> / --stats-format json
-          i : {"absent", "ok", "missing", "noext", "badext"}]          \* --input-stats-file: a matching file / no such file / no extension / .txt
+          i : {"absent", "ok", "missing", "noext", "badext"},          \* --input-stats-file: a matching file / no such file / no extension / .txt
+          g : BOOLEAN]                                  \* --generate-checks-toml: a valid invocation writes the template custom_checks.toml into the working directory and ends (status 0) without processing; an invalid one writes nothing
 NFilters(x) == (IF x.f THEN 1 ELSE 0) + (IF x.F THEN 1 ELSE 0) + (IF x.s THEN 1 ELSE 0)
 Valid(x) == /\ NFilters(x) <= 1                                   \* the filters exclude one another
             /\ x.o => NFilters(x) = 1                             \* raw output requires a filter
